@@ -1,8 +1,8 @@
 /-
   Model of class MDSDRV_Linker (/repo/src/platform/mdsdrv.cpp + mdsdrv.h) as it is after the
-  `fix:` commits 795bab9 (get_seq_data keeps no state), b631743 (short ver/seq chunk),
-  f4c9b9c (PCM header outside pcmd), 2e3fb5a (pointer slot outside the sequence), bbcbd9c
-  (pitch clamp before narrowing), bd33990 (identifier beginning with a digit), and the repair of
+  `fix:` commits 81bf063 (get_seq_data keeps no state), 7ae57e5 (short ver/seq chunk),
+  b42d7ed (PCM header outside pcmd), 80e619f (pointer slot outside the sequence), 27af62a
+  (pitch clamp before narrowing), c8da697 (identifier beginning with a digit), and the repair of
   D11 (add_song re-homes the playback window `pcmd[position + start, +size)` of a PCM header and
   passes `start = 0`; same commit as the Wave_Bank repair, see Model/Wave.lean).
 
@@ -216,7 +216,7 @@ structure Acc where
   wave : Wave.Bank
   patch : List (Nat × Nat)
 
-/-- `seq_sdata + id*2` has a pointer slot inside the sequence (fix 2e3fb5a) -/
+/-- `seq_sdata + id*2` has a pointer slot inside the sequence (fix 80e619f) -/
 def slotInside (sdata id seqLen : Nat) : Bool := sdata + (id % 2147483648) * 2 + 2 ≤ seqLen
 
 /-- one `glob` chunk -/
@@ -363,7 +363,7 @@ def waveTable (bank : List Bytes) (offs : List Nat) : List Wave.Sample → Excep
 
 def headerSize (n : Nat) : Nat := Tables.link_headerBase + n * Tables.link_headerPerSong
 
-/-- `MDSDRV_Linker::get_seq_data` (no state is kept between calls: fix 795bab9) -/
+/-- `MDSDRV_Linker::get_seq_data` (no state is kept between calls: fix 81bf063) -/
 def getSeqData (l : Linker) : Except Err Bytes :=
   let n := l.seqCount
   match layoutData l.dataBank (headerSize n - Tables.link_ptrBase) with
